@@ -261,6 +261,18 @@ def r3_index(rep, ctx):
         fresh = all(a[0] == "call" and a[1] in (("name", "list"),) for a in alternatives(cont))
         rep.check(u1 is not None and u1 == u2 and fresh, "C11.R3", "ChangingIndex:same-unit-copy", "the edited container is a copy of the own values in the target unit and the new element is expressed in that same unit",
                   "ChangingIndex edits %s with %s: %s" % (show(cont, 80), show(val, 80), "container and element are in different units" if u1 != u2 else "the container is not a copy"), node=s, fn=fn)
+    # every Scalar that ChangingIndex builds to hold the new element carries an amount: the supplied value, or
+    # (tuple form: re-expression of the stored element) the element at `index`; a Scalar built from the quantity
+    # alone holds the category's default value instead
+    P_VALUE = ("param", fn.params.index("value"), "value")
+    for c in own_nodes(fn.node):
+        if isinstance(c, ast.Call) and isinstance(c.func, ast.Name) and c.func.id == "Scalar":
+            t = res.term(c)
+            args = list(t[2]) if t[0] == "call" else []
+            stored = len(args) >= 2 and all(a_ == P_VALUE or (a_[0] == "sub" and a_[2] == ("param", idx_i, "index") and a_[1][0] == "call" and a_[1][1][0] == "field" and a_[1][1][1] in ("GetValues", "GetAbstractValue"))
+                                            or (a_[0] == "sub" and a_[2] == ("const", 0) and a_[1] == P_VALUE) for a_ in alternatives(args[1]))
+            rep.check(stored, "C11.R3", "ChangingIndex:scalar-holds-an-amount:%s" % norm(ast.unparse(c))[:50], "the Scalar built for the new element holds the supplied amount or the stored element",
+                      "ChangingIndex builds `%s`: the Scalar that is re-expressed does not hold the stored element (a Scalar built from the quantity alone holds the category default), so ChangingIndex(i, (None, unit)) replaces the element by the default value" % norm(ast.unparse(c))[:80], node=c, fn=fn)
     ia = m.own_method("FixedArray", "IndexAsScalar")
     r2 = Resolver(m, ia)
     ok = False
